@@ -285,10 +285,14 @@ class ApplyLoop(LoopSpec):
         out = []
         for f in TRACKING_FIELDS:
             v = me.fields.get(f)
-            fresh = v is not None and id(v) not in me.ghost["pre_ids"]
-            empty = fresh and ((isinstance(v, (list, dict, set)) and len(v) == 0) or (isinstance(v, SObj) and getattr(v, "born", None) is I.ctx))
-            out.append((f"per-rule field {f} was re-created for this rule", z3.BoolVal(bool(fresh))))
-            out.append((f"per-rule field {f} is empty when the first item runs", z3.Implies(z3.Length(done) == 0, z3.BoolVal(bool(empty)))))
+            def is_empty(x):
+                if isinstance(x, (list, dict, set)):
+                    return len(x) == 0
+                if isinstance(x, SObj):      # a tracking object is empty iff every container it holds is empty (e.g. the mapping AND its reverse index)
+                    return all(is_empty(y) for y in x.fields.values() if isinstance(y, (list, dict, set, SObj)))
+                return False
+            out.append((f"per-rule field {f} carries nothing of the previous rule when the first item runs (re-created or completely emptied)",
+                        z3.Implies(z3.Length(done) == 0, z3.BoolVal(bool(v is not None and is_empty(v))))))
         return out
 
 
@@ -307,7 +311,7 @@ class PipelineApplyReset(Contract):
 
     def args(self, I):
         cinfo = I.E.index.lookup("sigma.processing.pipeline:ProcessingPipeline")
-        old = {"applied": [True], "applied_ids": {"old"}, "field_name_applied_ids": {"f": {"old"}}, "field_mappings": SObj(I.E.index.lookup("sigma.processing.tracking:FieldMappingTracking"), {}, lazy=True), "state": {"k": "v"}}
+        old = {"applied": [True], "applied_ids": {"old"}, "field_name_applied_ids": {"f": {"old"}}, "field_mappings": SObj(I.E.index.lookup("sigma.processing.tracking:FieldMappingTracking"), {"data": {"a": {"b"}}, "target_fields": {"b": {"a"}}}), "state": {"k": "v"}}
         me = SObj(cinfo, dict(old), lazy=True)
         me.fields["items"] = SList(I.fresh("items", "seq", elem=("opaque", "PItem")))
         me.ghost["pre_ids"] = {id(v) for v in old.values()}
@@ -326,10 +330,11 @@ class PipelineApplyReset(Contract):
         from sigma.rule import SigmaRule
         from collections import defaultdict
         p = ProcessingPipeline()
-        old = {"applied": [True], "applied_ids": {"old"}, "field_name_applied_ids": defaultdict(set, {"f": {"old"}}), "field_mappings": FieldMappingTracking({"a": {"b"}}), "state": {"k": "v"}}
+        old = {"applied": [True], "applied_ids": {"old"}, "field_name_applied_ids": defaultdict(set, {"f": {"old"}}), "field_mappings": FieldMappingTracking(), "state": {"k": "v"}}
+        old["field_mappings"].add_mapping("a", "b")
         for k, v in old.items():
             setattr(p, k, v)
         rule = SigmaRule.from_yaml("title: t\nlogsource:\n  category: c\ndetection:\n  sel:\n    f: v\n  condition: sel\n")
         p.apply(rule)
-        bad = [k for k in old if getattr(p, k) is old[k] or len(getattr(p, k)) != 0]
+        bad = [k for k in old if len(getattr(p, k)) != 0 or (k == "field_mappings" and len(p.field_mappings.target_fields) != 0)]
         return f"after ProcessingPipeline.apply on a pipeline without items the per-rule fields {bad} still carry the previous rule's content" if bad else None
